@@ -711,7 +711,8 @@ fn oracle_c13(t: &WorldTrace, obs: &[Obs], stats: &mut Stats) -> Vec<Violation> 
             }
         }
         // what was physically printed (captured stdout / stderr of the simulated process)
-        if matches!(v.entry, Entry::Check | Entry::Tokenize) {
+        // (the OK line is promised for `check` only: `echo` and `tokenize` are bound by their exit status)
+        if matches!(v.entry, Entry::Check) {
             stats.count("c13.printed_output_evaluations");
             let ok = matches!(o.outcome, Outcome::Ok);
             if o.printed.ok_line != ok {
